@@ -1,6 +1,7 @@
 import Gmars.Driver.ApiRun
 import Gmars.Driver.TextRun
 import Gmars.Driver.HookRun
+import Gmars.Driver.AsmRun
 open Gmars Gmars.Driver
 
 structure Global where
@@ -35,9 +36,10 @@ partial def loop (h : IO.FS.Stream) (out : IO.FS.Stream) (g : Global) : IO Globa
         | none => g.dumps
       loop h out { g with ctx := none, dumps, nCases := g.nCases + 1, nOps := g.nOps + st.nOps,
                           nNontrivial := g.nNontrivial + (if st.nontrivial then 1 else 0) }
-  else if line.startsWith "L " || line.startsWith "K " || line.startsWith "H " then
+  else if line.startsWith "L " || line.startsWith "K " || line.startsWith "H " || line.startsWith "X " then
     let (outs, upd) := if line.startsWith "L " then runLoadLine line
-      else if line.startsWith "K " then runListingLine line else runHookLine line
+      else if line.startsWith "K " then runListingLine line
+      else if line.startsWith "X " then runAsmLine none line else runHookLine line
     for o in outs do out.putStrLn o
     loop h out { g with text := upd g.text }
   else if line.startsWith "P " then
